@@ -1,5 +1,6 @@
 import EzdxfVerif.Model.Codec
 import EzdxfVerif.Model.XTags
+import EzdxfVerif.Model.JsonTags
 import Drivers.Proto
 open EzdxfVerif EzdxfVerif.Codec Proto
 
@@ -37,6 +38,169 @@ def parseXTag (s : String) : Option XTags.Tag :=
 open EzdxfVerif.XTags in
 def showXTag (t : XTags.Tag) : String :=
   toString t.code ++ ":" ++ (match t.val with | .str s => showNats s | .ref n => "ref" ++ toString n)
+
+/-! ### session 3: text layer (ASCII, recover, JSON), packed tags -/
+open EzdxfVerif.AsciiTags EzdxfVerif.JsonTags
+
+/-- float text table `bits:cps,bits:cps,…` : `fmt` = first entry with the bits, `parse` = first entry with the text -/
+def parseFt (s : String) : Option (List (Nat × List Nat)) :=
+  if s.isEmpty then some [] else
+  (s.splitOn ",").mapM fun e =>
+    match e.splitOn ":" with
+    | [b, t] => do let bits ← b.toNat?; let txt ← parseNats t; some (bits, txt)
+    | _ => none
+
+def ftFmt (tab : List (Nat × List Nat)) (b : Nat) : List Nat :=
+  match tab.find? (fun e => e.1 == b) with | some e => e.2 | none => [63]
+def ftParse (tab : List (Nat × List Nat)) (t : List Nat) : Option Nat :=
+  (tab.find? (fun e => e.2 == t)).map (·.1)
+
+def showTErr : TErr → String
+  | .structure => "structure" | .value => "value" | .decode => "decode" | .unsupported => "unsupported"
+
+def parseCVal (s : String) : Option Val := parseVal s
+
+def parseCTag (s : String) : Option (CTag Val) :=
+  match s.splitOn ":" with
+  | [c, v] =>
+    if v.startsWith "p" then do
+      let code ← c.toNat?
+      let body : String := (v.drop 1).toString
+      let xs ← (if body.isEmpty then some [] else (body.splitOn ",").mapM fun t => t.toNat?.map Val.dbl)
+      some (.point code xs)
+    else do let code ← c.toNat?; let val ← parseVal v; some (.single code val)
+  | _ => none
+
+def parseCTags (s : String) : Option (List (CTag Val)) :=
+  if s.isEmpty then some [] else (s.splitOn ";").mapM parseCTag
+
+def showPtVal : Val → String
+  | .dbl b => toString b
+  | v => "?" ++ showVal v
+
+def showCTag : CTag Val → String
+  | .single c v => toString c ++ ":" ++ showVal v
+  | .point c xs => toString c ++ ":p" ++ ",".intercalate (xs.map showPtVal)
+
+def showCTags (r : Except TErr (List (CTag Val))) : String :=
+  match r with
+  | .ok ts => "ok " ++ ";".intercalate (ts.map showCTag)
+  | .error e => "err " ++ showTErr e
+
+def showNum : Num → String
+  | .int v => "i" ++ toString v
+  | .flt t => "f" ++ showNats t
+
+def showJVal : JVal → String
+  | .str s => "s" ++ showNats s
+  | .num n => showNum n
+  | .nums xs => "l" ++ ",".intercalate (xs.map showNum)
+
+/-- checksum of the escapes of all code points of a range (exhaustive tie of `escChar` to json.dumps) -/
+def escRangeSum (lo hi : Nat) : Nat :=
+  (List.range (hi - lo)).foldl (fun acc i =>
+    let e := escChar (lo + i)
+    (e.foldl (fun a x => (a * 131 + x + 1) % 1000000007) acc)) 7
+
+def step2 (line : String) : String :=
+  match line.splitOn "|" with
+  | ["jesc", s] => (match parseNats s with | some t => showNats (jsonDumps t) | none => "bad-op")
+  | ["jescrange", lo, hi] =>
+    (match lo.toNat?, hi.toNat? with | some a, some b => toString (escRangeSum a b) | _, _ => "bad-op")
+  | ["jstr", s] =>
+    (match parseNats s with
+     | some t => (match scanStr t with
+        | some (v, r) => "ok " ++ showNats v ++ "|" ++ toString r.length
+        | none => "none")
+     | none => "bad-op")
+  | ["jmerge", s] => (match parseNats s with | some t => showNats (mergePairs t) | none => "bad-op")
+  | ["jnum", s] =>
+    (match parseNats s with
+     | some t => (match scanNumber t with
+        | some (n, r) => "ok " ++ showNum n ++ "|" ++ toString r.length
+        | none => "none")
+     | none => "bad-op")
+  | ["isfloatlit", s] => (match parseNats s with | some t => (if isFloatLit t then "1" else "0") | none => "bad-op")
+  | ["jdoc", s] =>
+    (match parseNats s with
+     | some t => (match parseDoc t with
+        | some ps => "ok " ++ ";".intercalate (ps.map fun p => showNum p.1 ++ "=" ++ showJVal p.2)
+        | none => "none")
+     | none => "bad-op")
+  | ["jload", ft, s] =>
+    (match parseFt ft, parseNats s with
+     | some tab, some t => showCTags (jsonLoad (ftParse tab) t)
+     | _, _ => "bad-op")
+  | ["jwrite", c, ft, ts] =>
+    (match parseFt ft, parseCTags ts with
+     | some tab, some tags => showNats (jsonWrite (ftFmt tab) (c == "1") tags)
+     | _, _ => "bad-op")
+  | ["arender", ft, ts] =>
+    (match parseFt ft, parseCTags ts with
+     | some tab, some tags => showNats (render (ftFmt tab) tags)
+     | _, _ => "bad-op")
+  | ["aload", ft, s] =>
+    (match parseFt ft, parseNats s with
+     | some tab, some t => showCTags (asciiLoad (ftParse tab) t)
+     | _, _ => "bad-op")
+  | ["iload", ft, s] =>
+    (match parseFt ft, parseNats s with
+     | some tab, some t => showCTags (internalLoad (ftParse tab) t)
+     | _, _ => "bad-op")
+  | ["rload", ft, s] =>
+    (match parseFt ft, parseNats s with
+     | some tab, some t => showCTags (recoverLoad (ftParse tab) t)
+     | _, _ => "bad-op")
+  | ["univnl", s] => (match parseNats s with | some t => showNats (univNL t) | none => "bad-op")
+  | ["crlf", s] => (match parseNats s with | some t => showNats (toCRLF t) | none => "bad-op")
+  | ["readlines", s] =>
+    (match parseNats s with
+     | some t => ";".intercalate ((readLines t).map showNats)
+     | none => "bad-op")
+  | ["strip", s] => (match parseNats s with | some t => showNats (strip t) | none => "bad-op")
+  | ["stripb", s] => (match parseNats s with | some t => showNats (upperB (stripB t)) | none => "bad-op")
+  | ["pyint", s] =>
+    (match parseNats s with
+     | some t => (match pyIntWs t with | some i => "ok " ++ toString i | none => "none")
+     | none => "bad-op")
+  | ["vaexport", code, vs] =>
+    (match code.toNat?, (if vs.isEmpty then some [] else (vs.splitOn ";").mapM parseNats) with
+     | some c, some vl => ";".intercalate ((vaExport c vl).map fun p => toString p.1 ++ ":" ++ toString p.2)
+     | _, _ => "bad-op")
+  | ["vafrom", size, code, ts] =>
+    (match size.toNat?, code.toNat?, parseCTags ts with
+     | some sz, some c, some tags =>
+       (match vaFromTags sz c tags with
+        | some vs => "ok " ++ ";".intercalate (vs.map fun v => ",".intercalate (v.map showPtVal))
+        | none => "err")
+     | _, _, _ => "bad-op")
+  | ["scanver", s] =>
+    (match parseNats s with
+     | some d => showNats (scanVersion d) ++ "|" ++ (if loaderR12 d then "1" else "0")
+     | none => "bad-op")
+  | ["tlfrom", code, ts] =>
+    (match code.toNat?, (if ts.isEmpty then some [] else (ts.splitOn ";").mapM fun e =>
+        match e.splitOn ":" with
+        | [c, v] => do let a ← c.toNat?; let b ← v.toNat?; some (a, b)
+        | _ => none) with
+     | some c, some fl => showNats (tlFromTags c fl)
+     | _, _ => "bad-op")
+  | ["group", k, ts] =>
+    (match k.toNat?, parseNats ts with
+     | some kk, some codes =>
+       let tagged := codes.zipIdx
+       ";".intercalate ((groupTags (fun p : Nat × Nat => p.1 == kk) tagged).map fun g =>
+         " ".intercalate (g.map fun p => toString p.1 ++ ":" ++ toString p.2))
+     | _, _ => "bad-op")
+  | ["scanr12", s] =>
+    (match parseNats s with
+     | some d => (if loaderR12 d then "1" else "0")
+     | none => "bad-op")
+  | ["bchunks", s] =>
+    (match parseNats s with
+     | some d => ";".intercalate ((binChunks d).map showNats) ++ "#" ++ toString (binChunks d).length
+     | none => "bad-op")
+  | _ => "bad-op"
 
 def step (line : String) : String :=
   match line.splitOn "|" with
@@ -97,6 +261,6 @@ def step (line : String) : String :=
         | .error .missingAppClose => "err missingAppClose"
         | .error .unexpectedTag => "err unexpectedTag")
      | none => "bad-op")
-  | _ => "bad-op"
+  | _ => step2 line
 
 def main : IO Unit := Proto.run step
